@@ -13,7 +13,7 @@
 Require Import Cherab.Common.Qx.
 From Coq Require Import String.
 Require Import Cherab.Model.C15_Groups Cherab.Model.C15_Table.
-Require Import Cherab.Proofs.C15_Setters Cherab.Proofs.C15_Members Cherab.Proofs.C15_Slices.
+Require Import Cherab.Proofs.C15_Setters Cherab.Proofs.C15_Members Cherab.Proofs.C15_Slices Cherab.Proofs.C15_Slits Cherab.Proofs.C15_Shared.
 Open Scope string_scope.
 Open Scope list_scope.
 Open Scope Z_scope.
@@ -202,6 +202,63 @@ Theorem C15_read_in_any_state :
   step c e g (OGet a) = (g, RVals (map (mget (member_attr a)) g)).
 Proof. exact read_in_any_state. Qed.
 Print Assumptions C15_read_in_any_state.
+
+(* BolometerCamera's slit list: one operation keeps "no slit twice, every member's slit is listed" and
+   only appends at the end (add_foil_detector, every step of the foil_detectors setter's loop -- also the
+   steps done before the loop raises) *)
+Theorem C15_slits_step_invariant :
+  forall c e g sl o, c_flavour c = FBolometer -> slits_ok e g sl ->
+  slits_ok e (fst (step c e g o)) (slits_step c e sl o) /\ extends sl (slits_step c e sl o).
+Proof. exact slits_step_ok. Qed.
+Print Assumptions C15_slits_step_invariant.
+
+(* ... hence after EVERY history on an initially empty camera: the slit list holds no slit twice and holds
+   the slit of every current member; and from any state on it only grows at its end, so slits stay in
+   order of first appearance *)
+Theorem C15_slits_history_invariant :
+  forall c e, c_flavour c = FBolometer ->
+  (forall ops, slits_ok e (exec c e [] ops) (slits_exec c e [] ops))
+  /\ (forall ops g sl, slits_ok e g sl -> extends sl (slits_exec c e sl ops)).
+Proof. intros c e F; split; [intro ops; now apply slits_history_from_empty | intros ops g sl Ok; now apply (slits_history c e F ops g sl Ok)]. Qed.
+Print Assumptions C15_slits_history_invariant.
+
+(* connect_pipelines (base signature), identity-free: whenever the call succeeds every member has its own
+   row of new pipeline objects of exactly the requested classes, no object is shared between or within
+   members, none existed before the call; the members' pipelines attribute is that row and nothing else
+   about any member changes *)
+Theorem C15_connect_pipelines_fresh_and_unshared :
+  forall c e cl nk w obs g g', step c e g (OConnect cl nk w obs) = (g', ROk) ->
+  List.length obs = List.length g
+  /\ Forall (fun row => map fst row = cl) obs
+  /\ NoDup (map snd (List.concat obs))
+  /\ Forall (fun p => w < snd p) (List.concat obs)
+  /\ map (mget "pipelines") g' = map pipelines_value obs
+  /\ Forall2 (same_except "pipelines") g g'.
+Proof. exact connect_spec. Qed.
+Print Assumptions C15_connect_pipelines_fresh_and_unshared.
+
+(* one observer named twice (added again, or listed twice in a member list): the sharing semantics
+   [step_shared] that the correspondence runs is the plain model on every history of distinct observers,
+   so every theorem above about [step] / [run] / [exec] speaks about what is compared *)
+Theorem C15_shared_semantics_refines_model :
+  forall c e,
+  (forall g o, NoDup (map mid g) -> op_fresh g o = true -> step_shared c e g o = step c e g o)
+  /\ (forall ops g, NoDup (map mid g) -> hist_fresh c e g ops = true -> run_shared c e g ops = run c e g ops).
+Proof. intros c e; split; [intros; now apply step_shared_refines | intros; now apply run_shared_refines]. Qed.
+Print Assumptions C15_shared_semantics_refines_model.
+
+(* ... and with repeats: after every shared step two slots holding the same observer hold one and the same
+   state, membership (slots and their order) is what the plain step gives, and observing calls observe
+   once per slot in slot order, so an observer held by k slots is observed k times *)
+Theorem C15_observer_named_twice :
+  forall c e g,
+  (forall a b, In a (share g) -> In b (share g) -> mid a = mid b -> a = b)
+  /\ map mid (share g) = map mid g
+  /\ snd (step_shared c e g OObserve) = RObs (map mid g)
+  /\ Forall2 (fun m m' => mobs m' = mobs m + count_id g (mid m) /\ mid m' = mid m /\ mstore m' = mstore m
+                          /\ mparent m' = mparent m /\ mtype m' = mtype m) g (fst (step_shared c e g OObserve)).
+Proof. intros c e g; split; [apply share_consistent | split; [apply share_ids | apply observe_shared]]. Qed.
+Print Assumptions C15_observer_named_twice.
 
 (* after ANY history of add / member-list assignment / attribute assignment (rename = assignment of
    names) / read / lookup / observe operations on an initially empty group, every member's
